@@ -244,9 +244,12 @@ def check_barrier_part(spec, excl, cut, order, before, picks, ts_above, rep, win
     max_ts = max(ts_e) if ts_e else 1e5
     lo = min(E)
     e_range = max(max(E), max_ts) - lo
-    if window is not None:
-        # the window the code really scanned (observed from outside at disconnected_height):
-        # "one scan step" of the statement is the step of that scan
+    # "one scan step" of the statement is the resolution the landscape itself fixes: 1/510 of the span from the lowest
+    # minimum to the highest stationary point (the window `C17_window_covers` is proved for).  The window the code
+    # really scanned (observed from outside at disconnected_height) only replaces it when the two agree to rounding —
+    # a selector that scans some other window has a different "step", and omissions are judged by the landscape's
+    if window is not None and abs(window[0] - max_ts) <= 1e-9 * max(1.0, abs(max_ts)) and \
+            abs(window[1] - e_range) <= 1e-9 * max(1.0, abs(e_range)):
         max_ts, e_range = window
     step = e_range / 510
     tol = 1e-9 * max(1.0, abs(max_ts), abs(cut))
@@ -423,6 +426,14 @@ def predicates(ctx: Ctx) -> None:
         else:
             spec = c18.float_spec(rng, nmax=10)
             ts_above = True
+        if it % 5 == 4 and spec["ts"]:
+            # the zero of energy is arbitrary: put it exactly on the highest transition state (0.0 — or -0.0 — is a value
+            # like any other; files written with five decimals turn every |E| < 5e-6 into it)
+            top = max(t[2] for t in spec["ts"])
+            z = rng.choice([0.0, -0.0])
+            spec = {"E": [e - top for e in spec["E"]], "coords": spec["coords"],
+                    "ts": [[u, v, (z if e == top else e - top), c] for u, v, e, c in spec["ts"]]}
+            ts_above = all(e > max(spec["E"][u], spec["E"][v]) for u, v, e, _ in spec["ts"] if u != v)
         nn = len(spec["E"])
         excl = random_excl(rng, nn)
         for scheme in SCHEMES:
